@@ -672,7 +672,7 @@ func runC01(ctx *Ctx) {
 				verb+strings.Join(w[:nOps], " ")+" "+strings.Join(ww[:nOps], " ")+" "+outcomeWire(ro, po)+" "+outcomeWire(rw, pw))
 		}
 	}
-	for _, c := range append(c01Corpus(), c01D01Corpus()...) {
+	for _, c := range append(append(c01Corpus(), c01D01Corpus()...), c01D01bCorpus()...) {
 		ctx.Tag("corpus")
 		doTuple(specByName[c.op], c.o, [][]cty.Value{c.w}, nil, true)
 	}
@@ -757,6 +757,9 @@ func runC01(ctx *Ctx) {
 				verdict = a[:j]
 			}
 			ctx.Tag("scope:" + p.op + ":" + scope + ":" + verdict)
+			if scope == "in-members" && c01MoreStored(p.os[0], p.ws[0]) {
+				ctx.Tag("scope:haselement:in-members:more-members-stored-than-concrete")
+			}
 		} else {
 			scope = ""
 		}
